@@ -18,6 +18,7 @@ import (
 	"testing"
 
 	"github.com/ossrs/go-oryx-lib/flv"
+	"verifharness/lib/detviol"
 	"verifharness/lib/mon"
 	"verifharness/lib/refflv"
 	"verifharness/lib/transport"
@@ -150,7 +151,7 @@ func TestVerif_C09_Files(t *testing.T) {
 		"and 2^24-1 in a fixed few files per tier; PRNG bodies. Each file is muxed by the library and written by refflv, compared byte for byte, " +
 		"parsed by refflv, and both files are demuxed by the library through a segmenting reader (whole | 1 byte per Read | random 1..7 | cut list " +
 		"with boundaries inside file header, tag headers and PreviousTagSize; optionally last bytes delivered together with io.EOF). " +
-		"distinct = observed flags x tag-count bucket x segmentation modes x set of size classes x set of timestamp classes")
+		"distinct = observed flags x tag-count bucket x segmentation modes x set of size classes x {timestamps below 2^24, with extension byte}")
 	n := m.N(2000, 100000)
 	nbig := m.N(2, 24)
 	m.Require("evaluations", int64(n))
@@ -179,6 +180,8 @@ func TestVerif_C09_Files(t *testing.T) {
 		only = int(v)
 	}
 	bigEvery := n / nbig
+	vc := detviol.New(m)
+	defer vc.Flush()
 	mon.Parallel(n, func(w, i int) {
 		if only >= 0 && i != only {
 			return
@@ -186,11 +189,11 @@ func TestVerif_C09_Files(t *testing.T) {
 		r := m.Rand("file", i)
 		big := i%bigEvery == bigEvery/4
 		f := genFile(r, i, big)
-		checkFile(m, r, f, i, big)
+		checkFile(m, vc, r, f, i, big)
 	})
 }
 
-func checkFile(m *mon.M, r *vrand.Rand, f *refflv.File, i int, big bool) {
+func checkFile(m *mon.M, vc *detviol.Collector, r *vrand.Rand, f *refflv.File, i int, big bool) {
 	m.Case()
 	rep := map[string]interface{}{"case": i, "file": describe(f)}
 	if len(f.Tags) == 0 {
@@ -201,21 +204,21 @@ func checkFile(m *mon.M, r *vrand.Rand, f *refflv.File, i int, big bool) {
 		var lbuf bytes.Buffer
 		mx, err := flv.NewMuxer(&lbuf)
 		if err != nil {
-			m.Violationf("c09:mux-error:new", rep, "NewMuxer: %v", err)
+			vc.Violationf(i, "c09:mux-error:new", rep, "NewMuxer: %v", err)
 			return
 		}
 		if err = mx.WriteHeader(f.HasVideo, f.HasAudio); err != nil {
-			m.Violationf("c09:mux-error:header", rep, "WriteHeader: %v", err)
+			vc.Violationf(i, "c09:mux-error:header", rep, "WriteHeader: %v", err)
 			return
 		}
 		for k, tg := range f.Tags {
 			if err = mx.WriteTag(flv.TagType(tg.Type), tg.Timestamp, tg.Body); err != nil {
-				m.Violationf("c09:mux-error:tag", rep, "WriteTag #%d: %v", k, err)
+				vc.Violationf(i, "c09:mux-error:tag", rep, "WriteTag #%d: %v", k, err)
 				return
 			}
 		}
 		if err = mx.Close(); err != nil {
-			m.Violationf("c09:mux-error:close", rep, "Close: %v", err)
+			vc.Violationf(i, "c09:mux-error:close", rep, "Close: %v", err)
 		}
 		L := lbuf.Bytes()
 		R := f.Bytes()
@@ -248,7 +251,7 @@ func checkFile(m *mon.M, r *vrand.Rand, f *refflv.File, i int, big bool) {
 				}
 				return fmt.Sprintf("%x", b[lo:h])
 			}
-			m.Violationf("c09:muxer-bytes-differ:"+fd.Name, rep,
+			vc.Violationf(i, "c09:muxer-bytes-differ:"+fd.Name, rep,
 				"muxer output (%d bytes) differs from the FLV v1 layout (%d bytes) at offset %d = field %s of tag %d; bytes [%d..): muxer %s, layout %s",
 				len(L), len(R), off, fd.Name, fd.Tag, lo, clip(L), clip(R))
 		} else {
@@ -262,9 +265,9 @@ func checkFile(m *mon.M, r *vrand.Rand, f *refflv.File, i int, big bool) {
 			if pe, ok := err.(*refflv.ParseError); ok {
 				code = pe.Code
 			}
-			m.Violationf("c09:muxer-output-rejected:"+code, rep, "independent parser rejects the muxer's bytes: %v", err)
+			vc.Violationf(i, "c09:muxer-output-rejected:"+code, rep, "independent parser rejects the muxer's bytes: %v", err)
 		} else if what, detail := diffFiles(pf, f); what != "" {
-			m.Violationf("c09:muxer-output-parsed-differs:"+what, rep, "independent parser reads the muxer's bytes differently: %s", detail)
+			vc.Violationf(i, "c09:muxer-output-parsed-differs:"+what, rep, "independent parser reads the muxer's bytes differently: %s", detail)
 		} else {
 			m.Count("muxer_output_parsed_ok", 1)
 		}
@@ -273,8 +276,8 @@ func checkFile(m *mon.M, r *vrand.Rand, f *refflv.File, i int, big bool) {
 		const oneByteLimit = 300000
 		s1 := transport.PickSegReader(L, r, headerCuts(r, f), oneByteLimit)
 		s2 := transport.PickSegReader(R, r, headerCuts(r, f), oneByteLimit)
-		o1 := demux(m, s1, f, "libfile", rep)
-		demux(m, s2, f, "reffile", rep)
+		o1 := demux(m, vc, i, s1, f, "libfile", rep)
+		demux(m, vc, i, s2, f, "reffile", rep)
 		m.Classf("flags%s/n%s/seg:%s+%s/%s", o1.flags, bucket(len(f.Tags)), s1.Mode, s2.Mode, o1.classes())
 	})
 }
@@ -319,20 +322,24 @@ type observed struct {
 }
 
 func (o *observed) classes() string {
-	join := func(mp map[string]bool) string {
-		var ks []string
-		for k := range mp {
-			ks = append(ks, k[strings.IndexByte(k, '_')+1:])
-		}
-		sort.Strings(ks)
-		return strings.Join(ks, ",")
+	var ks []string
+	for k := range o.sizes {
+		ks = append(ks, k[strings.IndexByte(k, '_')+1:])
 	}
-	return "sz{" + join(o.sizes) + "}/ts{" + join(o.tss) + "}"
+	sort.Strings(ks)
+	ts := ""
+	if o.tss["low"] {
+		ts += "low24"
+	}
+	if o.tss["ext"] {
+		ts += "+ext"
+	}
+	return "sz{" + strings.Join(ks, ",") + "}/ts{" + ts + "}"
 }
 
 // demux reads the stream with the library demuxer and compares with want.  All counters
 // are taken from what the demuxer returned, not from the generator.
-func demux(m *mon.M, s *transport.SegReader, want *refflv.File, src string, rep map[string]interface{}) *observed {
+func demux(m *mon.M, vc *detviol.Collector, i int, s *transport.SegReader, want *refflv.File, src string, rep map[string]interface{}) *observed {
 	o := &observed{flags: "?", sizes: map[string]bool{}, tss: map[string]bool{}}
 	rp := map[string]interface{}{"source": src, "segmentation": s.Describe()}
 	for k, v := range rep {
@@ -341,13 +348,13 @@ func demux(m *mon.M, s *transport.SegReader, want *refflv.File, src string, rep 
 	seg := s.Describe()
 	d, err := flv.NewDemuxer(s)
 	if err != nil {
-		m.Violationf("c09:demux-error:new:"+src, rp, "NewDemuxer: %v", err)
+		vc.Violationf(i, "c09:demux-error:new:"+src, rp, "NewDemuxer: %v", err)
 		return o
 	}
 	defer d.Close()
 	ver, hv, ha, err := d.ReadHeader()
 	if err != nil {
-		m.Violationf("c09:demux-error:header:"+src, rp, "ReadHeader (%s): %v", seg, err)
+		vc.Violationf(i, "c09:demux-error:header:"+src, rp, "ReadHeader (%s): %v", seg, err)
 		return o
 	}
 	fl := 0
@@ -360,15 +367,15 @@ func demux(m *mon.M, s *transport.SegReader, want *refflv.File, src string, rep 
 	o.flags = fmt.Sprint(fl)
 	m.Count(fmt.Sprintf("flags_%d_observed", fl), 1)
 	if ver != 1 {
-		m.Violationf("c09:demux-version-differs:"+src, rp, "version %d read from a version 1 file", ver)
+		vc.Violationf(i, "c09:demux-version-differs:"+src, rp, "version %d read from a version 1 file", ver)
 	}
 	if hv != want.HasVideo || ha != want.HasAudio {
-		m.Violationf("c09:demux-flags-differ:"+src, rp, "read video=%v audio=%v, written video=%v audio=%v", hv, ha, want.HasVideo, want.HasAudio)
+		vc.Violationf(i, "c09:demux-flags-differ:"+src, rp, "read video=%v audio=%v, written video=%v audio=%v", hv, ha, want.HasVideo, want.HasAudio)
 	}
 	for k, w := range want.Tags {
 		tt, size, ts, err := d.ReadTagHeader()
 		if err != nil {
-			m.Violationf("c09:demux-error:tag-header:"+src, rp, "tag %d of %d, ReadTagHeader (%s): %v", k, len(want.Tags), seg, err)
+			vc.Violationf(i, "c09:demux-error:tag-header:"+src, rp, "tag %d of %d, ReadTagHeader (%s): %v", k, len(want.Tags), seg, err)
 			return o
 		}
 		ext := ""
@@ -376,21 +383,21 @@ func demux(m *mon.M, s *transport.SegReader, want *refflv.File, src string, rep 
 			ext = ":ext"
 		}
 		if byte(tt) != w.Type {
-			m.Violationf("c09:demux-type-differs:"+src, rp, "tag %d: type %d, written %d", k, tt, w.Type)
+			vc.Violationf(i, "c09:demux-type-differs:"+src, rp, "tag %d: type %d, written %d", k, tt, w.Type)
 		}
 		if ts != w.Timestamp {
-			m.Violationf("c09:demux-timestamp-differs"+ext+":"+src, rp, "tag %d: timestamp %#x, written %#x", k, ts, w.Timestamp)
+			vc.Violationf(i, "c09:demux-timestamp-differs"+ext+":"+src, rp, "tag %d: timestamp %#x, written %#x", k, ts, w.Timestamp)
 		}
 		if int(size) != len(w.Body) {
-			m.Violationf("c09:demux-size-differs:"+src, rp, "tag %d: size %d, written %d", k, size, len(w.Body))
+			vc.Violationf(i, "c09:demux-size-differs:"+src, rp, "tag %d: size %d, written %d", k, size, len(w.Body))
 		}
 		body, err := d.ReadTag(size)
 		if err != nil {
-			m.Violationf("c09:demux-error:body:"+src, rp, "tag %d (size %d), ReadTag (%s): %v", k, size, seg, err)
+			vc.Violationf(i, "c09:demux-error:body:"+src, rp, "tag %d (size %d), ReadTag (%s): %v", k, size, seg, err)
 			return o
 		}
 		if !bytes.Equal(body, w.Body) {
-			m.Violationf("c09:demux-body-differs:"+src, rp, "tag %d: %d body bytes returned, %d written, equal prefix %d", k, len(body), len(w.Body), commonPrefix(body, w.Body))
+			vc.Violationf(i, "c09:demux-body-differs:"+src, rp, "tag %d: %d body bytes returned, %d written, equal prefix %d", k, len(body), len(w.Body), commonPrefix(body, w.Body))
 		}
 		// observations
 		m.Count("tags_demuxed", 1)
@@ -401,11 +408,15 @@ func demux(m *mon.M, s *transport.SegReader, want *refflv.File, src string, rep 
 			m.Count("ext_timestamp_tags", 1)
 		}
 		o.sizes[sizeClass(len(body))] = true
-		o.tss[tsClass(ts)] = true
+		if ts >= 1<<24 {
+			o.tss["ext"] = true
+		} else {
+			o.tss["low"] = true
+		}
 	}
 	// the sequence ends here: a further tag would be one that was never written
 	if tt, size, ts, err := d.ReadTagHeader(); err == nil {
-		m.Violationf("c09:demux-extra-tag:"+src, rp, "after the last written tag the demuxer returned another tag header (type %d size %d ts %#x)", tt, size, ts)
+		vc.Violationf(i, "c09:demux-extra-tag:"+src, rp, "after the last written tag the demuxer returned another tag header (type %d size %d ts %#x)", tt, size, ts)
 	} else if err == io.EOF {
 		m.Count("end_reported_as_io_EOF", 1)
 	} else {
